@@ -85,7 +85,8 @@ def generate(seed, prop):
         files.append({"stem": stem, "rate": rate,
                       "n": int(rate * dur) + 1, "k": rng.randrange(1 << 30)})
     pre = {"window_length_in_seconds": wl, "detrend": rng.choice(["linear", "constant"]),
-           "filter": rng.choice([[None, None], [0.2, None]]), "orient": rng.choice([0.0, 30.0])}
+           "filter": rng.choice([[None, None], [None, None], [0.2, None], [0.2, 20.0], [None, 24.0], [0.5, 40.0]]),
+           "orient": rng.choice([0.0, 30.0])}
     proc = draw_processing(rng)
     order = list(range(n_files))
     rng.shuffle(order)
